@@ -222,4 +222,174 @@ def complete (r : Repo) : Bool :=
 /-- no inventory without its revision (no stored parent inventory of a ghost) -/
 def noOrphanInv (r : Repo) : Bool := r.invs.all fun kv => hasRev r kv.1
 
+/-! ### the revision search as the code performs it for any history length
+
+`_walk_to_common_revisions`: the breadth-first searcher of the source graph is
+advanced layer by layer (`next_with_ghosts`) until at least
+`_walk_to_common_revisions_batch_size` (`n`, 50 in the code) present revisions
+have been collected (or the searcher is exhausted); the target is asked which
+of them it has (`have_revs`); `find_seen_ancestors(have_revs)` — everything
+*seen so far* that is reachable from them through seen revisions — is stopped
+(`stop_searching_any`: recorded as stopped, removed from the current layer, and
+the parents that only stopped revisions of the current layer reference are
+removed from the next query); then the next batch starts.  The result is
+`seen − stopped` (`get_state()`; ghosts of the source are implicit stop points).
+With more than one batch the result depends on the layering: a revision the
+target lacks that lies behind a revision the target has is left out only if it
+had been seen when that revision was checked. -/
+
+open BreezyVerif.C33 (present dedup allKeys)
+
+/-- state of the searcher in `next_with_ghosts` mode -/
+structure Walk where
+  /-- `searcher.seen` -/
+  seen : List Rev
+  /-- `searcher._stopped_keys` -/
+  stopped : List Rev
+  /-- `searcher._current_present` -/
+  cur : List Rev
+  /-- `searcher._next_query` -/
+  next : List Rev
+  deriving Repr
+
+/-- one `next_with_ghosts()` (the query is not empty): the query is looked up,
+ghosts become stop points, the unseen parents of the found keys are the next query -/
+def Walk.layer (g : PMap) (w : Walk) : Walk :=
+  { seen := w.seen ++ w.next
+    stopped := w.stopped ++ w.next.filter fun k => !present g k
+    cur := w.next.filter (present g)
+    next := dedup (((w.next.filter (present g)).flatMap (parentsL g)).filter (· ∉ w.seen ++ w.next)) }
+
+/-- the parent map restricted to `seen` keys and `seen` parents -/
+def restrict (g : PMap) (seen : List Rev) : PMap :=
+  (g.filter fun kv => kv.1 ∈ seen).map fun kv => (kv.1, kv.2.filter (· ∈ seen))
+
+/-- `searcher.find_seen_ancestors(have_)` -/
+def seenAnc (g : PMap) (seen have_ : List Rev) : List Rev :=
+  reach (restrict g seen) (have_.filter (· ∈ seen))
+
+/-- `searcher.stop_searching_any(stop)` in `next_with_ghosts` mode -/
+def Walk.stopAny (g : PMap) (w : Walk) (stop : List Rev) : Walk :=
+  { seen := w.seen
+    stopped := w.stopped ++ stop
+    cur := w.cur.filter (· ∉ stop)
+    next := w.next.filter fun p => (w.cur.filter (· ∉ stop)).any fun j => decide (p ∈ parentsL g j) }
+
+/-- the end of one batch: `have_revs = target.get_parent_map(next_revs)`, stop their seen ancestors -/
+def Walk.batchEnd (g : PMap) (has : Rev → Bool) (w : Walk) (acc : List Rev) : Walk :=
+  w.stopAny g (seenAnc g w.seen (acc.filter has))
+
+/-- the two nested loops of `_walk_to_common_revisions`; `acc` = `next_revs` of the
+running batch.  `none` = out of fuel (never with the fuel of `walkB`: `walkB_total`). -/
+def walkLoop (g : PMap) (has : Rev → Bool) (n : Nat) : Nat → Walk → List Rev → Option Walk
+  | 0, _, _ => none
+  | fuel + 1, w, acc =>
+    if acc.length < n && !w.next.isEmpty then
+      walkLoop g has n fuel (w.layer g) (acc ++ (w.layer g).cur)
+    else if acc.length < n then some (w.batchEnd g has acc)      -- left by StopIteration: exhausted
+    else walkLoop g has n fuel (w.batchEnd g has acc) []
+
+def walkB (g : PMap) (has : Rev → Bool) (n : Nat) (start : Rev) : Option Walk :=
+  walkLoop g has n (2 * (allKeys g [start]).length + 3) ⟨[], [], [], [start]⟩ []
+
+/-- `search_missing_revision_ids(revision_ids=[rev], find_ghosts=fg).get_keys()` with
+`_walk_to_common_revisions_batch_size = n` -/
+def missingB (n : Nat) (fg : Bool) (src tgt : Repo) (rev : Rev) : List Rev :=
+  if fg then missing true src tgt rev
+  else match walkB (graph src) (hasRev tgt) n rev with
+    | some w => w.seen.filter (· ∉ w.stopped)
+    | none => []
+
+/-- Which texts a stream carries.  `filtered x`: the stream sources
+(`GroupCHKStreamSource`, `KnitPackStreamSource`, `StreamSource`): the entries of
+the sent inventories that occur in no inventory of an excluded boundary parent
+(`streamEntries x`).  `perRevision`: `InterDifferingSerializer._fetch_batch`
+(local fetch between different serialisers): for every sent revision the
+entries that occur in no inventory the source holds of one of ITS parents. -/
+inductive StreamKind where
+  | filtered (x : Exclusion)
+  | perRevision
+  deriving DecidableEq, Repr
+
+def streamEntriesP (src : Repo) (m : List Rev) : List Entry :=
+  m.flatMap fun k => (invOrEmpty src k).filter fun e =>
+    !decide (e ∈ (parentsL (graph src) k).flatMap (invOrEmpty src))
+
+def StreamKind.entries : StreamKind → Repo → List Rev → List Entry
+  | .filtered x, src, m => streamEntries x src m
+  | .perRevision, src, m => streamEntriesP src m
+
+/-- can the source produce the records of `m` and the texts of `es`? -/
+def streamableE (src : Repo) (m : List Rev) (es : List Entry) : Bool :=
+  m.all (fun k => (get src.invs k).isSome) && es.all fun e => (get src.texts e.key).isSome
+
+/-- what inserting the records of `m` and the texts of `es` adds -/
+def copyE (src tgt : Repo) (m : List Rev) (es : List Entry) : Repo :=
+  { revs := tgt.revs ++ m.filterMap fun k => (get src.revs k).map fun v => (k, v)
+    invs := tgt.invs ++ m.filterMap fun k => (get src.invs k).map fun v => (k, v)
+    texts := tgt.texts ++ es.filterMap fun e => (get src.texts e.key).map fun c => (e.key, c) }
+
+/-- the copy of the revisions `m` with the texts of the entries `es` -/
+def fetchWithE (ext : Bool) (src tgt : Repo) (m : List Rev) (es : List Entry) : Except Err Repo :=
+  if !streamableE src m es then .error .sourceIncomplete
+  else .ok (if ext then withParentInvs src (copyE src tgt m es) m else copyE src tgt m es)
+
+/-- `tgt.fetch(src, revision_id=rev, find_ghosts=fg)` for any history length
+(`n` = `_walk_to_common_revisions_batch_size`) and either kind of copy -/
+def fetchB (n : Nat) (s : StreamKind) (ext fg : Bool) (src tgt : Repo) (rev : Rev) : Except Err Repo :=
+  if !hasRev src rev && (fg || !hasRev tgt rev) then .error .noSuchRevision
+  else fetchWithE ext src tgt (missingB n fg src tgt rev) (s.entries src (missingB n fg src tgt rev))
+
+/-- a sequence of fetches `(rev, find_ghosts)` from one source; a fetch that raises leaves the target as it was -/
+def fetchSeq (n : Nat) (s : StreamKind) (ext : Bool) (src : Repo) : Repo → List (Rev × Bool) → Repo
+  | t, [] => t
+  | t, (rev, fg) :: rest =>
+    match fetchB n s ext fg src t rev with
+    | .ok t' => fetchSeq n s ext src t' rest
+    | .error _ => fetchSeq n s ext src t rest
+
+def emptyRepo : Repo := ⟨[], [], []⟩
+
+/-! ### per-file history
+
+Every text record carries its per-file parents (the versioned file's graph:
+`texts.get_parent_map`).  `RepoH` adds that map; the stream carries a text
+record with its parents, `insert_record_stream` stores them as sent. -/
+
+structure RepoH where
+  repo : Repo
+  /-- (file id, text revision) ↦ revisions of the per-file parents (same file id) -/
+  tpar : List (TextKey × List Rev)
+  deriving DecidableEq, Repr
+
+/-- copy the values of the entries' keys, existing keys keep their value -/
+def copyMap {β : Type} (sm tm : List (TextKey × β)) (es : List Entry) : List (TextKey × β) :=
+  tm ++ es.filterMap fun e => (get sm e.key).map fun c => (e.key, c)
+
+/-- every text has a per-file-parents record (one versioned-file record holds both) -/
+def textsHaveParents (r : RepoH) : Bool := r.repo.texts.all fun kv => (get r.tpar kv.1).isSome
+
+def fetchWithH (ext : Bool) (src tgt : RepoH) (m : List Rev) (es : List Entry) : Except Err RepoH :=
+  match fetchWithE ext src.repo tgt.repo m es with
+  | .error e => .error e
+  | .ok t => .ok ⟨t, copyMap src.tpar tgt.tpar es⟩
+
+def fetchBH (n : Nat) (s : StreamKind) (ext fg : Bool) (src tgt : RepoH) (rev : Rev) : Except Err RepoH :=
+  if !hasRev src.repo rev && (fg || !hasRev tgt.repo rev) then .error .noSuchRevision
+  else fetchWithH ext src tgt (missingB n fg src.repo tgt.repo rev)
+    (s.entries src.repo (missingB n fg src.repo tgt.repo rev))
+
+/-- a decidable witness of acyclicity: `d` strictly decreases from every revision to its parents
+(for real histories: any topological numbering, e.g. the position in commit order) -/
+def acyclicBy (d : Rev → Nat) (r : Repo) : Bool :=
+  r.revs.all fun kv => kv.2.parents.all fun p => decide (d p < d kv.1)
+
+/-- what the copy theorems need of the source for a kind of stream: the stream
+sources must not meet a stored inventory of a ghost parent (or be the repaired
+variant); the per-revision copy needs that and an acyclic history (`d`) -/
+def kindOK (s : StreamKind) (d : Rev → Nat) (src : Repo) : Bool :=
+  match s with
+  | .filtered x => decide (x = .revisionPresent) || noOrphanInv src
+  | .perRevision => noOrphanInv src && acyclicBy d src
+
 end BreezyVerif.C03
